@@ -1,6 +1,7 @@
 package main
 
 import (
+	"go/types"
 	"fmt"
 	"go/token"
 	"regexp"
@@ -142,6 +143,8 @@ func runC05(c *Ctx) {
 	c05Errors(c)
 	c05LogArgs(c)
 	c05Verify(c, prune)
+	c05VerifyNeedsAction(c)
+	scannerVerdictRule(c, "R7")
 }
 
 // ResultOfCallNamed: v is (through a local cell) the result of a call to the named callee.
@@ -893,4 +896,197 @@ func reachVia(d *ssa.BasicBlock, i int, cut map[Edge]bool) map[*ssa.BasicBlock]b
 		return map[*ssa.BasicBlock]bool{}
 	}
 	return ReachBlocks(d.Succs[i], cut, nil)
+}
+
+// ---- scanners stop only at the end of their input -------------------------------------------------------
+// The retention scans (and every other history scan) read Git's output through small scanner types used as
+// `for s.Scan() { ... }`. A Scan that answers false for an entry it merely wants to skip (a submodule line, a
+// non-blob) ends the whole listing early: everything behind that entry is silently not seen — for prune, not
+// retained. The rule: the value Scan returns is made only of the underlying scanner's own verdict, constants and
+// error tests; a dependence on the parsed entry is allowed only at the sites frozen below.
+var scanVerdictAllowed = map[string]string{
+	"(*git.RevListScanner).Scan": "len(oid) > 0: rev-list output has no empty lines; scan() has already returned io.EOF at the end",
+	"(*lfs.logScanner).scan":     "the log scanner returns a pointer per Scan and reports false only when its line scanner is exhausted (checked by the shape of scan())",
+}
+
+func scannerVerdictRule(c *Ctx, rule string) {
+	p := c.P
+	n := 0
+	for _, fn := range p.RepoFuncs(productPkg) {
+		if fn.Name() != "Scan" || fn.Signature.Recv() == nil || fn.Signature.Params().Len() != 0 || fn.Signature.Results().Len() != 1 {
+			continue
+		}
+		if b, ok := fn.Signature.Results().At(0).Type().Underlying().(*types.Basic); !ok || b.Kind() != types.Bool {
+			continue
+		}
+		n++
+		var bad []string
+		seen := map[ssa.Value]bool{}
+		var walk func(v ssa.Value, owner *ssa.Function, depth int)
+		walk = func(v ssa.Value, owner *ssa.Function, depth int) {
+			if v == nil || seen[v] || depth > 8 {
+				return
+			}
+			seen[v] = true
+			switch x := v.(type) {
+			case *ssa.Const:
+				return
+			case *ssa.Phi:
+				for _, e := range x.Edges {
+					walk(e, owner, depth+1)
+				}
+			case *ssa.UnOp:
+				if x.Op == token.NOT {
+					walk(x.X, owner, depth+1)
+					return
+				}
+				if x.Op == token.MUL {
+					// a result cell / field: follow the stores in the same function
+					for _, d := range ReachingDefsAll(x.X, owner) {
+						walk(d, owner, depth+1)
+					}
+					return
+				}
+			case *ssa.Extract:
+				if call, ok := x.Tuple.(*ssa.Call); ok {
+					walkCall(call, x.Index, owner, depth, walk, &bad, p)
+					return
+				}
+			case *ssa.Call:
+				walkCall(x, 0, owner, depth, walk, &bad, p)
+				return
+			case *ssa.BinOp:
+				if isErrorish(x.X) || isErrorish(x.Y) {
+					return // error test
+				}
+				if _, why := scanVerdictAllowed[FnName(owner)]; why {
+					return
+				}
+				bad = append(bad, fmt.Sprintf("%s in %s (%s)", describeCond(x), FnName(owner), p.InstrPos(x)))
+				return
+			}
+		}
+		for _, r := range ReturnsOf(fn) {
+			for _, v := range ReturnValues(r, 0) {
+				walk(v, fn, 0)
+			}
+		}
+		sort.Strings(bad)
+		c.Check(len(bad) == 0, rule, "scanner-stops-only-at-end:"+FnName(fn), p.Pos(fn.Pos()), "Scan's verdict is the underlying reader's verdict (plus error tests)",
+			"Scan can answer false depending on the entry just read ("+strings.Join(bad, "; ")+"): a `for s.Scan()` loop then stops at the first such entry and everything listed after it is never seen")
+	}
+	c.AtLeast(rule, "scanner types with Scan() bool", n, 5)
+}
+
+func isErrorish(v ssa.Value) bool {
+	t := v.Type()
+	if t.String() == "error" {
+		return true
+	}
+	if ld, ok := v.(*ssa.UnOp); ok {
+		if g, ok := ld.X.(*ssa.Global); ok && (g.Name() == "EOF" || strings.HasPrefix(g.Name(), "Err")) {
+			return true
+		}
+	}
+	return false
+}
+
+func walkCall(call *ssa.Call, idx int, owner *ssa.Function, depth int, walk func(ssa.Value, *ssa.Function, int), bad *[]string, p *Prog) {
+	callee := call.Call.StaticCallee()
+	name := CalleeName(&call.Call)
+	if callee == nil || callee.Blocks == nil || callee.Pkg == nil || !productPkg(callee.Pkg.Pkg.Path()) {
+		// the underlying reader (bufio.Scanner.Scan, pkt-line reads ...) or an interface call: its verdict
+		if strings.HasSuffix(name, ".Scan") || strings.HasSuffix(name, ".Next") || strings.Contains(name, "Read") {
+			return
+		}
+		if b, ok := call.Type().Underlying().(*types.Basic); ok && b.Kind() == types.Bool && idx == 0 {
+			*bad = append(*bad, fmt.Sprintf("result of %s in %s", name, FnName(owner)))
+		}
+		return
+	}
+	for _, r := range ReturnsOf(callee) {
+		for _, v := range ReturnValues(r, idx) {
+			walk(v, callee, depth+1)
+		}
+	}
+}
+
+// ReachingDefsAll lists the values stored into the cell addr anywhere in fn (flow-insensitive).
+func ReachingDefsAll(addr ssa.Value, fn *ssa.Function) []ssa.Value {
+	var out []ssa.Value
+	for _, b := range fn.Blocks {
+		for _, in := range b.Instrs {
+			if st, ok := in.(*ssa.Store); ok && (st.Addr == addr || SameVar(st.Addr, addr)) {
+				out = append(out, st.Val)
+			}
+		}
+	}
+	return out
+}
+
+// c05VerifyNeedsAction (R6, second half): prune --verify-remote counts an object as verified when the dry-run
+// download queue delivers it, and a dry-run queue delivers every transfer it hands to its adapter. So an object
+// may be handed to the adapter only when the server offered a download action for it (or a standalone agent
+// replaces the server): a bare {oid,size} answer — the server does not hold the object — must not reach it.
+func c05VerifyNeedsAction(c *Ctx) {
+	p := c.P
+	fn := p.Fn("tq", "(*TransferQueue).enqueueAndCollectRetriesFor")
+	if fn == nil {
+		c.Missing("R6", "(*tq.TransferQueue).enqueueAndCollectRetriesFor", "not found")
+		return
+	}
+	adds := CallsIn(fn, "(*tq.TransferQueue).addToAdapter")
+	if len(adds) == 0 {
+		c.Missing("R6", "addToAdapter call in enqueueAndCollectRetriesFor", "not found")
+		return
+	}
+	// the appends that build the list handed to the adapter
+	var appends []*ssa.Call
+	for _, ad := range adds {
+		args := CallArgs(ad.Common())
+		for _, l := range p.LeavesNoFields(args[len(args)-1], func(v ssa.Value) FlowAct {
+			if cc, ok := v.(*ssa.Call); ok {
+				if bi, ok := cc.Call.Value.(*ssa.Builtin); ok && bi.Name() == "append" {
+					return Stop
+				}
+			}
+			return Descend
+		}) {
+			if cc, ok := l.(*ssa.Call); ok {
+				if bi, ok := cc.Call.Value.(*ssa.Builtin); ok && bi.Name() == "append" {
+					appends = append(appends, cc)
+				}
+			}
+		}
+	}
+	if !c.AtLeast("R6", "appends to the list handed to the adapter", len(appends), 1) {
+		return
+	}
+	pass := PassEdges(fn, func(cond ssa.Value) (bool, bool) {
+		if e, trueMeansNil, ok := IsErrNilCheck(cond); ok {
+			if cc, idx, isRes := CallResult(e); isRes && idx == 0 && CalleeName(cc.Common()) == "(*tq.Transfer).Rel" {
+				return !trueMeansNil, true
+			}
+		}
+		if op, x, y, ok := BinCmp(cond); ok && (op == token.EQL || op == token.NEQ) {
+			for _, pr := range [][2]ssa.Value{{x, y}, {y, x}} {
+				if _, f, _, isF := FieldOf(pr[0]); isF && f == "standaloneTransferAgent" {
+					if s, isC := ConstString(pr[1]); isC && s == "" {
+						return op == token.NEQ, true
+					}
+				}
+			}
+		}
+		return false, false
+	})
+	loops := Loops(fn)
+	for i, ac := range appends {
+		entry := fn.Blocks[0]
+		if l := LoopOf(loops, ac.Block()); l != nil {
+			entry = l.Body
+		}
+		g, path := Guarded(entry, ac, pass, nil)
+		c.Check(g && nonVacuous(pass), "R6", fmt.Sprintf("adapter-needs-action#%d", i), p.InstrPos(ac), "an object is handed to the adapter only with an action for this operation (or a standalone agent)",
+			"an object for which the server offered no action can be handed to the adapter; the dry-run queue of `prune --verify-remote` reports it as verified, so an object the remote does not hold is pruned: "+path)
+	}
 }
